@@ -307,6 +307,10 @@ func run(c Case, o *vt.Obs) *vt.Failure {
 	nearMiss := false
 	for i, call := range c.Calls {
 		p, cfg := procs[call.Proc], procCfgs[call.Proc]
+		if p.KilledFromOutside() {
+			vt.Inconclusive(fmt.Sprintf("C17 process %d (%s) was killed from outside (SIGKILL)", call.Proc, cfg.role))
+			return nil
+		}
 		if !p.Alive() {
 			return vt.Failf(prop+"/process-terminated", i, "process %d (%s) terminated: %s", call.Proc, cfg.role, p.LogTail(2000))
 		}
